@@ -312,3 +312,23 @@ PROPS["C16"] = dict(
                                                              "histories_past_reallocation_step": 1, "one_phone_words_added": 10, "existing_word_checks": 2000}),
     assumptions=[A_SAN, A_GEN],
 )
+
+PROPS["C10"] = dict(
+    title="Untrusted grammar, dictionary, configuration and text inputs are handled safely", level="exploration",
+    technique="structure-aware mutation fuzzing of the real entry points under ASan/UBSan with per-input attribution of the process fate (sanitizer report, signal, assertion, exit, watchdog)",
+    level_text="exploration: a deterministic structure-aware mutator (token dictionaries per format, splice / duplicate / delete / bit flips, numeric "
+               "edge values, 64 KiB tokens, nesting depth 10000, truncation, non-UTF-8 and control bytes, unstructured bytes) feeds seven targets: "
+               "JSGF text, FSG files (exact-size buffers and the fsg: path of decoder_init), pronunciation and filler dictionaries, JSON and "
+               "key-value configuration strings, alignment text, word/pronunciation pairs, CMN strings. Every object that comes back is used "
+               "(arcs walked, written, compiled, loaded into a live decoder, decoded, serialised and re-parsed) and freed. Any sanitizer "
+               "report, signal, assertion, exit() or 30 s watchdog expiry (re-run once alone) inside a case is a violation.",
+    level_note="leaks are not judged here (the statement does not list them); string entry points stop at the first NUL by contract; "
+               "the committed corpus under /verif/corpus is replayed as additional seeds",
+    rule="one case = one generated input for one target (target = case index mod 7); distinct = hash of (target, bytes).",
+    stages=[dict(harness="h_fuzz", flavor="asan", quick=21000, thorough=280000, hang_violation=True),
+            dict(harness="h_fuzz", flavor="fast", quick=35000, thorough=700000, hang_violation=True, name="h_fuzz_fast")],
+    floor=dict(min_evaluations=20000, min_distinct=10000, counters={"objects_returned_jsgf": 100, "objects_returned_fsg": 100, "objects_returned_dict": 100,
+                                                                   "objects_returned_config": 100, "grammars_loaded_into_decoder": 50, "short_decodes": 50,
+                                                                   "words_accepted": 20, "texts_accepted": 20, "fsgs_built_from_jsgf": 100}),
+    assumptions=[A_SAN, A_GEN],
+)
